@@ -190,6 +190,17 @@ CLAIMED = {
         "DESIGN.md §6 C17",
     ),
 }
+_TR = "machine-checked proof in Lean 4; part of the model is regenerated from /repo's source on every run by a translator ({}) and the theorems are re-checked against it; the hand-written rest is tied by a differential correspondence check against the running code"
+TECHNIQUE = {
+    "C08": "machine-checked proof in Lean 4 about an effect model + exhaustive fault-point enumeration against the running code",
+    "C04": _TR.format("T-arith: sampling arithmetic of estimate_u.py"),
+    "C05": _TR.format("T-arith: threshold_args_to_match_prob of misc.py"),
+    "C11": _TR.format("T-arith: threshold_args_to_match_prob_list of misc.py"),
+    "C14": _TR.format("T-arith: calculate_cartesian of misc.py"),
+    "C06": _TR.format("T-dialect: function / infinity / array-index table of the five dialects and the comparators the level creators emit, probed on the real backends"),
+    "C16": _TR.format("T-levels: predicate tree of every library comparison level and the level list of every library comparison"),
+    "C17": _TR.format("T-writes: attribute writes of every creator class"),
+}
 PENDING_REASON = "check not built yet (model/theorems/correspondence under construction per DESIGN.md §10b); not claimed until all three exist"
 
 checks = []
@@ -208,7 +219,7 @@ for p in props:
             "engine": "lean4+correspondence",
             "level_claimed": {"category": "proof", "text": text, "design_ref": ref},
             "level_note": note,
-            "technique": "machine-checked proof in Lean 4 about a hand-written executable model + differential correspondence check against the running code" if pid != "C08" else "machine-checked proof in Lean 4 about an effect model + exhaustive fault-point enumeration against the running code",
+            "technique": TECHNIQUE.get(pid, "machine-checked proof in Lean 4 about a hand-written executable model + differential correspondence check against the running code"),
         }
     )
 manifest = {
